@@ -80,15 +80,13 @@ func computeShape(t types.Type, depth int) []Leaf {
 	if depth > 12 {
 		return []Leaf{{Sort: "U", Kind: KOpaq}}
 	}
-	if n, ok := types.Unalias(t).(*types.Named); ok && n.Obj().Pkg() != nil {
-		switch n.Obj().Pkg().Path() + "." + n.Obj().Name() {
+	if key, ok := specialNamed(t); ok {
+		switch key {
 		case "math/big.Int":
 			return []Leaf{{Path: ".v", Sort: "Int", Kind: KInt}}
 		case "github.com/holiman/uint256.Int":
 			return []Leaf{{Path: ".v", Sort: "Int", Kind: KInt, Lo: big.NewInt(0), Hi: new(big.Int).Sub(pow2(256), big.NewInt(1))}}
-		case "math/big.Float", "math/big.Rat":
-			return []Leaf{{Path: ".v", Sort: "U", Kind: KOpaq}}
-		case "sync.Mutex", "sync.RWMutex", "sync.WaitGroup", "sync.Once":
+		default:
 			return []Leaf{{Path: ".v", Sort: "U", Kind: KOpaq}}
 		}
 	}
@@ -192,8 +190,24 @@ func tupleRange(tp *types.Tuple, i int) (int, int) {
 	return start, start + len(shapeOf(tp.At(i).Type()))
 }
 
+// specialNamed: library types that are modelled as one abstract leaf.
+func specialNamed(t types.Type) (string, bool) {
+	if n, ok := types.Unalias(t).(*types.Named); ok && n.Obj().Pkg() != nil {
+		key := n.Obj().Pkg().Path() + "." + n.Obj().Name()
+		switch key {
+		case "math/big.Int", "github.com/holiman/uint256.Int", "math/big.Float", "math/big.Rat",
+			"sync.Mutex", "sync.RWMutex", "sync.WaitGroup", "sync.Once", "sync.Pool", "sync.Map", "time.Time", "atomic.Value":
+			return key, true
+		}
+	}
+	return "", false
+}
+
 // typeKey is the canonical name of a type used in heap array names.
 func typeKey(t types.Type) string {
+	if key, ok := specialNamed(t); ok {
+		return key
+	}
 	switch tt := t.(type) {
 	case *types.Named:
 		if _, ok := tt.Underlying().(*types.Struct); ok {
